@@ -78,7 +78,34 @@ def _success_conditions(F):
         base = [(g[0], g[1]) for g in guards(x)]
         if isinstance(v, ast.Constant):
             if v.value is True:
-                alts.append((base, x))
+                # a guard `if flag:` on a local that only ever holds True / False stands for the places where it is set to True; one of them may be
+                # the else clause of the loop over the expected parameters ("no mismatch found")
+                expanded = [base]
+                for e_, pol_ in base:
+                    e0 = strip_cast(e_)
+                    if pol_ and isinstance(e0, ast.Name):
+                        defs = q.assigned_value(F, e0.id)
+                        if defs and all(isinstance(strip_cast(val), ast.Constant) and isinstance(strip_cast(val).value, bool) for st, val in defs):
+                            new_exp = []
+                            for cur in expanded:
+                                rest = [(a_, b_) for a_, b_ in cur if a_ is not e_]
+                                for st, val in defs:
+                                    if strip_cast(val).value is True:
+                                        extra = [(g[0], g[1]) for g in guards(st)]
+                                        par_ = getattr(st, '_parent', None)
+                                        if isinstance(par_, ast.For) and st in par_.orelse and q.unparse(par_.iter).endswith('.items()'):
+                                            extra.append((ast.Name(id='__no_mismatch__', ctx=ast.Load()), True))
+                                        elif q.unparse(getattr(q.enclosing(st, ast.For), 'iter', ast.Name(id='', ctx=ast.Load()))).endswith('.items()') is False and \
+                                                any(isinstance(n_, ast.For) and q.unparse(n_.iter).endswith('.items()') and any(
+                                                    isinstance(x_, ast.Assign) and isinstance(x_.targets[0], ast.Name) and x_.targets[0].id == e0.id for x_ in ast.walk(n_)) for n_ in q.walk(F, False)):
+                                            # initialised True before the parameter loop that may clear it: the flag form proper
+                                            extra.append((e_, True))
+                                    else:
+                                        continue
+                                    new_exp.append(rest + extra)
+                            expanded = new_exp or expanded
+                for cur in expanded:
+                    alts.append((cur, x))
             continue
         if isinstance(v, ast.Call) and isinstance(v.func, ast.Name) and v.func.id == 'any' and len(v.args) == 1 and isinstance(v.args[0], (ast.GeneratorExp, ast.ListComp)):
             c = v.args[0]
@@ -149,7 +176,7 @@ def rules_verdict_condition(run, r3, tmod):
                 return ('HAS_EVENT', False)
             if op == 'truthy' and l.endswith('.event') and '(' not in l:
                 return 'HAS_EVENT'
-            if op == 'truthy' and l in fl:
+            if op == 'truthy' and (l in fl or l == '__no_mismatch__'):
                 return 'ALL_MATCH'
             if op == 'truthy' and isinstance(e, ast.Call) and isinstance(e.func, ast.Name) and e.func.id == 'all':
                 return 'ALL_MATCH'
@@ -276,18 +303,25 @@ def rules_verdict_condition(run, r3, tmod):
                         cs.append((val_, at_ + guard_atoms(st_)))
                 if len(cs) == 1 and any(a[0] == 'falsy' for a in cs[0][1]):
                     cs.append((ast.Name(id=sp, ctx=ast.Load()), [('truthy', 'isinstance(%s, list)' % sp, '')]))
-            good = len(cs) == 2
+            good = len(cs) in (2, 3)
+            n_plain = 0
             for val, at in cs:
                 val = strip_cast(val)
                 is_list = any(a[0] == 'truthy' and a[1].replace(' ', '') == 'isinstance(%s,list)' % sp for a in at)
                 not_list = any(a[0] == 'falsy' and a[1].replace(' ', '') == 'isinstance(%s,list)' % sp for a in at)
+                # an extra convenience: a plain tuple of steps is converted to a list (it could not be used before)
+                is_tuple = any((a[0] == 'is' and {a[1], a[2]} == {'type(%s)' % sp, 'tuple'}) or (a[0] == 'truthy' and a[1].replace(' ', '') == 'isinstance(%s,tuple)' % sp) for a in at)
+                if not_list and not is_list and is_tuple:
+                    good = good and q.unparse(val) in ('list(%s)' % sp, '[*%s]' % sp)
+                    continue
+                n_plain += 1
                 if is_list and not not_list:
                     good = good and isinstance(val, ast.Name) and val.id == sp
                 elif not_list and not is_list:
                     good = good and isinstance(val, ast.List) and len(val.elts) == 1 and isinstance(val.elts[0], ast.Name) and val.elts[0].id == sp
                 else:
                     good = False
-            okw = okw and good
+            okw = okw and good and n_plain == 2
         run.check(okw, r3, fi.short, 'a single macro step is wrapped into a list, a list is taken as it is', 'the wrapping of the steps argument differs', F)
 
 
@@ -404,8 +438,58 @@ def _resolve_locals(F, expr, depth=0):
     return _T().visit(_copy.deepcopy(expr))
 
 
+CACHE_FIXTURE = [('sismic/bdd/steps.py', "from .. import testing\n",
+                  "from .. import testing\nfrom functools import lru_cache\n\n\n@lru_cache(maxsize=None)\ndef _fixture_literal(text):\n    return eval(text, {}, {})\n")]
+
+
+def memoised_builders(prog):
+    """Functions of sismic.bdd / sismic.testing under a memoising decorator (functools.lru_cache, functools.cache, ..) that hand out an object built by eval /
+    literal_eval / a display / a constructor: every caller then gets the SAME object."""
+    out = []
+    n = 0
+    for fi in prog.functions():
+        if not (fi.module.name.startswith('sismic.bdd') or fi.module.name == 'sismic.testing'):
+            continue
+        n += 1
+        deco = [q.unparse(d) for d in fi.node.decorator_list]
+        if not any(re.search(r'(^|\.)(lru_cache|cache|cached|memoize|memoized)(\(|$)', d) for d in deco):
+            continue
+        for x in q.walk(fi.node, False):
+            if isinstance(x, ast.Return) and x.value is not None:
+                vals = [x.value] + q.local_origin(fi.node, x.value)
+                for v in vals:
+                    v = strip_cast(v)
+                    if isinstance(v, (ast.List, ast.Dict, ast.Set, ast.ListComp, ast.DictComp, ast.SetComp)) or (
+                            isinstance(v, ast.Call) and (dotted(v.func) or '').split('.')[-1] in ('eval', 'literal_eval', 'loads', 'load', 'list', 'dict', 'set', 'deepcopy', 'copy')):
+                        out.append((fi, x))
+                        break
+    return n, out
+
+
+def rules_fresh_values(run):
+    from ..selftest.runner import apply_edits
+    from ..loader import Tree
+    from ..prog import Program
+    r = run.rule('C19.7', 'values written in steps are evaluated afresh for every step: no memoised function of the BDD layer hands out an object built by eval (a list shared '
+                          'between two steps is the list the statechart has already changed; an expected value can be the very object it is compared with)')
+    n, found = memoised_builders(run.prog)
+    run.floor(n, 30, r, 'functions of sismic.bdd / sismic.testing')
+    for fi, x in found:
+        run.fail(r, fi.short, 'memoised function returns a built object', 'the result of %s is cached and shared by every step that writes the same text: mutable values (lists, '
+                 'dicts) sent with one step are the objects sent or compared by the next' % q.unparse(x.value)[:40], x)
+    run.ok(r, 'sismic.bdd', '%d functions examined, none memoises a built value' % n if not found else 'examined', None)
+    ov = apply_edits(CACHE_FIXTURE)
+    if ov is None:
+        run.note('C19.7: positive fixture not applicable to the current text of steps.py (detector not re-proved on this run)')
+    else:
+        _, f2 = memoised_builders(Program(Tree(root=run.tree.root, overlay=dict(run.tree.overlay, **ov))))
+        run.floor(len(f2), 1, r, 'findings on the positive fixture (lru_cache around eval)')
+        run.ok(r, 'fixture', 'detector fires on the in-memory fixture', None)
+
+
 def check(run):
     run.guard(rules_userdata, run)
+    run.guard(rules_fresh_values, run)
     prog = run.prog
     r1 = run.rule('C19.1', 'every `then` step can fail, for the right reason: it asserts something that depends on its arguments and on the documented source, '
                            'reads that source on every normal path and never reads context.trace')
@@ -602,6 +686,8 @@ def check(run):
             in_body = lambda st: any(q.in_node(st, b_) for b_ in lp.body)      # (the else clause of the loop counts as "after the loop without a mismatch")
             inside = [(st, v) for st, v in q.assigned_value(fn, flag) if in_body(st)]
             outside = [(st, v) for st, v in q.assigned_value(fn, flag) if not in_body(st)]
+            # clearing the flag elsewhere (the name test failed, say) can only take verdicts away: this rule is about what True requires
+            outside = [(st, v) for st, v in outside if not (isinstance(v, ast.Constant) and v.value is False)] if len(outside) > 1 else outside
             okk = all(isinstance(v, ast.Constant) and v.value is False and mismatch(guard_atoms(st, stop=lp)) for st, v in inside) and \
                 len(outside) == 1 and isinstance(outside[0][1], ast.Constant) and outside[0][1].value is True and \
                 all(isinstance(x, ast.Break) for x in exits)
@@ -665,12 +751,15 @@ def check(run):
     when_ex = [c for c in ex if ('==', "'when'", 'step.step_type') in guard_atoms(c)]
     given_ex = [c for c in ex if ('==', "'given'", 'step.step_type') in guard_atoms(c)]
     run.check(len(when_ex) == 1 and len(given_ex) == 1 and len(ex) == 2, r4, asx.short, 'execute() after every given and every when step', 'found %d/%d' % (len(given_ex), len(when_ex)), A)
+    def own_conditions(c_):
+        # conditions other than "the step is not of another type" (an elif chain over the step types adds those)
+        return [a for a in guard_atoms(c_) if not (a[0] == '!=' and 'step.step_type' in (a[1], a[2]))]
     for c in given_ex:
-        run.check(isinstance(q.enclosing_stmt(c), ast.Expr) and not c.args and len(guard_atoms(c)) == 1, r4, asx.short, 'given: executes to quiescence without recording', 'differs', c)
+        run.check(isinstance(q.enclosing_stmt(c), ast.Expr) and not c.args and len(own_conditions(c)) == 1, r4, asx.short, 'given: executes to quiescence without recording', 'differs', c)
     for c in when_ex:
         st = q.enclosing_stmt(c)
         v = st.targets[0].id if isinstance(st, ast.Assign) and isinstance(st.targets[0], ast.Name) else None
-        run.check(v is not None and not c.args and len(guard_atoms(c)) == 1, r4, asx.short, 'when: result of execute() is kept', 'result dropped', c)
+        run.check(v is not None and not c.args and len(own_conditions(c)) == 1, r4, asx.short, 'when: result of execute() is kept', 'result dropped', c)
         exts = [x for x in q.calls(A) if q.unparse(x.func) == 'context.monitored_trace.extend']
         run.check(len(exts) == 1 and v and q.unparse(exts[0].args[0]) == v and guard_atoms(exts[0]) == guard_atoms(c) and q.strictly_before(A, st, exts[0]), r4, asx.short,
                   'when: monitored trace extended with every returned macro step', 'differs', A)
@@ -687,6 +776,19 @@ def check(run):
     sc = run.fn('sismic.bdd.environment:before_scenario')
     S = sc.node
     mk = [n for n in q.walk(S) if isinstance(n, ast.Assign) and q.unparse(n.targets[0]) == 'context.interpreter']
+    if len(mk) > 1:
+        # alternatives that differ in the initial context handed to the interpreter only: klass(sc) / klass(sc, initial_context=..)
+        def bare(n_):
+            v_ = strip_cast(n_.value)
+            if isinstance(v_, ast.Call) and all(k_.arg == 'initial_context' for k_ in v_.keywords):
+                return q.unparse(ast.Call(func=v_.func, args=v_.args, keywords=[]))
+            return None
+        if len({bare(n_) for n_ in mk}) == 1 and bare(mk[0]) is not None:
+            plain = [n_ for n_ in mk if not strip_cast(n_.value).keywords]
+            mk = plain[:1] or [ast.Assign(targets=mk[0].targets, value=ast.Call(func=strip_cast(mk[0].value).func, args=strip_cast(mk[0].value).args, keywords=[]))]
+    elif len(mk) == 1 and isinstance(strip_cast(mk[0].value), ast.Call) and strip_cast(mk[0].value).keywords and \
+            all(k_.arg == 'initial_context' for k_ in strip_cast(mk[0].value).keywords):
+        mk = [ast.Assign(targets=mk[0].targets, value=ast.Call(func=strip_cast(mk[0].value).func, args=strip_cast(mk[0].value).args, keywords=[]))]
     v = strip_cast(mk[0].value) if len(mk) == 1 else None
     ialias = {'context.interpreter'}
     if isinstance(v, ast.Name):
